@@ -108,7 +108,7 @@ def correspondence(ctx):
     items = G.c02_items(rng, ctx.quick)
     cases = []
     for it in items:
-        for sizes in G.pick_chunkings(it, rng, 3 if ctx.quick else 8):
+        for sizes in G.pick_chunkings(it, rng, 5 if ctx.quick else 10):
             cases.append((it, sizes))
     lines = [G.insp_req(it['fmt'], it['data'], sizes) for it, sizes in cases]
     replies = G.ask_par(ctx.driver, lines)
